@@ -15,7 +15,8 @@ TRUSTED = [
 ]
 
 ACT_E = ["identity", "relu", "hardclip"]
-ACT_F = ["tanh", "sigmoid", "identity", "relu"]
+ACT_F = ["tanh", "sigmoid", "identity", "relu", "softplus", "softmax"]
+MODEL_ACTS = {"identity", "relu", "hardclip", "tanh", "sigmoid"}     # softplus / softmax units: numpy oracle of the law only
 
 
 def hardclip(x):
@@ -63,6 +64,8 @@ def gen_case(g, regime):
     if regime == "F":
         # non-dyadic scale
         s = 0.1 + g.random()
+        if g.chance(0.2):
+            s *= g.choice([100.0, 1000.0])      # large-amplitude drive: pre-activations in the hundreds and thousands
         c["U_f"] = [[v * s for v in row] for row in c["U_f"]]
     # the type of the input arrays: the law is about their values, not their dtype
     c["udtype"] = g.choice(["float64", "float64", "float64", "int64", "int8", "float32"])
@@ -177,8 +180,15 @@ def model_case(c, params):
 
 
 def np_act(name):
+    def softmax(v):
+        e = np.exp(v - np.max(v))
+        return e / np.sum(e)
+
+    def sigmoid(v):
+        with np.errstate(over="ignore"):
+            return np.where(v >= 0, 1.0 / (1.0 + np.exp(-np.abs(v))), np.exp(-np.abs(v)) / (1.0 + np.exp(-np.abs(v))))
     return {"identity": lambda v: v, "relu": lambda v: np.maximum(v, 0.0), "hardclip": hardclip,
-            "tanh": np.tanh, "sigmoid": lambda v: 1.0 / (1.0 + np.exp(-v))}[name]
+            "tanh": np.tanh, "sigmoid": sigmoid, "softplus": lambda v: np.logaddexp(0.0, v), "softmax": softmax}[name]
 
 
 def oracle(c, obs, tol):
@@ -272,7 +282,7 @@ def check_cases(ctx, cases):
     for c in cases:
         r = common.exc_class(run_impl, c)
         obs_list.append(r)
-        if r[0] == "ok":
+        if r[0] == "ok" and c["act"] in MODEL_ACTS:
             mcases.append(model_case(c, r[1]["params"]))
         else:
             mcases.append(None)
@@ -296,15 +306,17 @@ def check_cases(ctx, cases):
         if r[0] != "ok":
             ctx.violation("well-formed reservoir run raised " + r[1], c, found_input=True, obligation=ob)
             continue
-        mo = next(it)
+        mo = next(it) if mc is not None else None
         obs = r[1]
         ctx.sample({"n": c["n"], "m": c["m"], "eq": c["eq"], "fmt": c["fmt"], "act": c["act"],
                     "hasFb": c["hasFb"], "lr": c["lr_f"], "U": c["U_f"][:2],
                     "first_rows": obs["rows"][:2].tolist()})
         orc = oracle(c, obs, tol)
-        if mo[0] != "ok":
+        if mo is not None and mo[0] != "ok":
             raise common.FrameworkError(f"model rejected a well-formed C01 case: {mo[1]}")
-        diff = compare(c, obs, mo[1])
+        diff = compare(c, obs, mo[1]) if mo is not None else None
+        if mo is None:
+            ctx.stat("units outside the model's activation set: numpy oracle only")
         if orc is not None:
             # shrink: shortest prefix that still fails
             small = c
